@@ -251,6 +251,76 @@ def _worker(args):
         return ('error', '%s\n%s' % (repr(shard), traceback.format_exc()))
 
 
+def _run_parallel(tasks, jobs):
+    """Run shard tasks in worker processes. A worker that dies (segfault, SIGFPE ...) must not hang the
+    check: unfinished shards are re-run one per process to find the one(s) that kill their process."""
+    import concurrent.futures as cf
+    from concurrent.futures.process import BrokenProcessPool
+    ctx = multiprocessing.get_context('fork')
+    results = [None] * len(tasks)
+    try:
+        with cf.ProcessPoolExecutor(jobs, mp_context=ctx) as ex:
+            futs = {ex.submit(_worker, t): i for i, t in enumerate(tasks)}
+            for fut in cf.as_completed(futs):
+                try:
+                    results[futs[fut]] = fut.result()
+                except BrokenProcessPool:
+                    pass
+    except BrokenProcessPool:
+        pass
+    crashed = []
+    for i, t in enumerate(tasks):
+        if results[i] is None:
+            try:
+                with cf.ProcessPoolExecutor(1, mp_context=ctx) as ex:
+                    results[i] = ex.submit(_worker, t).result()
+            except BrokenProcessPool:
+                crashed.append(t[1])
+                results[i] = ('ok', Recorder().summary())
+    return results, crashed
+
+
+def _replay_worker(args):
+    modname, case = args
+    module = importlib.import_module(modname)
+    try:
+        module.replay(case)
+    except Violation as v:
+        return (v.sig, v.msg)
+    return None
+
+
+def guarded_replay(modname, case):
+    """module.replay(case) in a child process. Returns None (held) or a Violation (not raised).
+    A child killed by a signal is a violation too (crash inside the C extension)."""
+    import concurrent.futures as cf
+    from concurrent.futures.process import BrokenProcessPool
+    ctx = multiprocessing.get_context('fork')
+    try:
+        with cf.ProcessPoolExecutor(1, mp_context=ctx) as ex:
+            r = ex.submit(_replay_worker, (modname, case)).result()
+    except BrokenProcessPool:
+        return Violation('process-crash', 'the process died (killed by a signal) while replaying the case', case)
+    if r is None:
+        return None
+    return Violation(r[0], r[1], case)
+
+
+def _replay_shard(modname, shard, known):
+    """Replay of a 'process-crash' finding: run the shard in a child process and see whether it dies."""
+    import concurrent.futures as cf
+    from concurrent.futures.process import BrokenProcessPool
+    ctx = multiprocessing.get_context('fork')
+    try:
+        with cf.ProcessPoolExecutor(1, mp_context=ctx) as ex:
+            kind, summary = ex.submit(_worker, (modname, shard, known)).result()
+    except BrokenProcessPool:
+        raise Violation('process-crash', 'the worker process died while running shard %r' % (shard,), {'__shard__': shard})
+    if kind == 'ok' and summary['failures']:
+        f = sorted(summary['failures'].values(), key=lambda x: x['sig'])[0]
+        raise Violation(f['sig'], f['msg'], f['case'])
+
+
 def write_replay(prop, failure):
     os.makedirs(os.path.join(OUT, 'replays'), exist_ok=True)
     blob = json.dumps({'property': prop, 'sig': failure['sig'], 'msg': failure['msg'],
@@ -308,7 +378,10 @@ def main(argv=None):
     if ns.replay:
         try:
             case = load_case(ns.replay)
-            module.replay(case)
+            if isinstance(case, dict) and '__shard__' in case:
+                _replay_shard(modname, case['__shard__'], {})
+            else:
+                module.replay(case)
         except Violation as v:
             print('replay: %s' % v)
             print('VIOLATION property=%s replay=%s' % (prop, ns.replay))
@@ -337,11 +410,7 @@ def main(argv=None):
             continue
         try:
             case = load_case(path)
-            try:
-                module.replay(case)
-                failed = None
-            except Violation as v:
-                failed = v
+            failed = guarded_replay(modname, case)
         except Exception:
             traceback.print_exc()
             print('HARNESS-ERROR property=%s (replay of %s)' % (prop, rp))
@@ -364,11 +433,11 @@ def main(argv=None):
             path = os.path.join(regress_dir, fn)
             n_regress += 1
             try:
-                module.replay(load_case(path))
-            except Violation as v:
-                r = Recorder(module, known_status)
-                if not r.is_known(v):
-                    violations.append((v.sig, path, v.msg))
+                v = guarded_replay(modname, load_case(path))
+                if v is not None:
+                    r = Recorder(module, known_status)
+                    if not r.is_known(v):
+                        violations.append((v.sig, path, v.msg))
             except Exception:
                 traceback.print_exc()
                 print('HARNESS-ERROR property=%s (regress %s)' % (prop, fn))
@@ -383,12 +452,15 @@ def main(argv=None):
         return 2
     tasks = [(modname, s, known_status) for s in shards]
     results = []
+    crashed = []
     if ns.jobs <= 1 or len(tasks) <= 1:
         results = [_worker(t) for t in tasks]
     else:
-        ctx = multiprocessing.get_context('fork')
-        with ctx.Pool(min(ns.jobs, len(tasks))) as pool:
-            results = pool.map(_worker, tasks, chunksize=1)
+        results, crashed = _run_parallel(tasks, min(ns.jobs, len(tasks)))
+    for shard in crashed:
+        f = {'sig': 'process-crash', 'msg': 'a worker process died (killed by a signal, e.g. a crash inside the C extension) while running shard %r' % (shard,),
+             'case': {'__shard__': shard}}
+        violations.append((f['sig'], write_replay(prop, f), f['msg']))
     errors = [r[1] for r in results if r[0] == 'error']
     if errors:
         for e in errors[:3]:
